@@ -36,6 +36,8 @@ class _IntMeta(type):
             return x
         if isinstance(x, SBool):
             return SInt(toint(x))
+        if isinstance(x, HexOfBytes) and len(a) == 2 and a[1] == 16:
+            return x.rope.to_int()
         if isinstance(x, Rope):
             cv = x.concrete()
             if cv is None:
@@ -700,6 +702,8 @@ def make_io_module():
 # binascii / re / hashlib / struct
 
 def m_unhexlify(x):
+    if isinstance(x, HexText):
+        return x.to_bytes_rope()
     if isinstance(x, Rope):
         cv = x.concrete()
         if cv is not None:
@@ -719,7 +723,9 @@ def m_unhexlify(x):
 
 def m_hexlify(x, *a):
     if isinstance(x, Rope):
-        return x.hex()
+        if x.concrete() is None:
+            return HexOfBytes(x)
+        return _binascii.hexlify(x.concrete(), *a)
     return _binascii.hexlify(x, *a)
 
 
@@ -841,6 +847,89 @@ def make_struct_module():
     m.__dict__.update(_struct.__dict__)
     m.unpack = m_struct_unpack
     return m
+
+
+# ---------------------------------------------------------------------------------------
+# "%x" % n  /  "%0Nx" % n  /  hexlify(b)  on symbolic values: hexadecimal text as a lazy object
+
+class HexText:
+    """the lower-case hexadecimal text of int term `t` (minimal length, or zero-padded to `width` digits), possibly
+    with `pad` extra leading '0' characters; as str or (after .encode()) bytes"""
+    _pyvc_symbolic = True
+    _pyvc_immutable = True
+
+    def __init__(self, t, width=0, pad=0):
+        self.t = t
+        self.width = width
+        self.pad = pad
+
+    def encode(self, *a):
+        return self
+
+    def decode(self, *a):
+        return self
+
+    def digits(self):
+        """number of hex digits (forks over the magnitude of t)"""
+        c = cur()
+        if c.branch(self.t < 0):
+            raise Undecided("hex text of a negative int")
+        n = 1
+        while n < 400:
+            if c.branch(self.t < z3.IntVal(16 ** n)):
+                break
+            n += 1
+        else:
+            raise Undecided("integer beyond 1600 bits in hex text")
+        return max(n, self.width) + self.pad
+
+    def _pyvc_len(self):
+        return self.digits()
+
+    def __radd__(self, o):
+        if isinstance(o, (bytes, str)) and set(o) <= set(b"0" if isinstance(o, bytes) else "0"):
+            return HexText(self.t, self.width, self.pad + len(o))
+        raise Undecided("concatenation with hex text")
+
+    def to_bytes_rope(self):
+        nd = self.digits()
+        if nd % 2:
+            raise _binascii.Error("Odd-length string")
+        return Rope([BE(self.t, nd // 2)])
+
+    def __format__(self, spec):
+        return core._sym_format(self, spec)
+
+
+class HexOfBytes:
+    """hexlify(rope): only ever fed to int(.., 16) or to diagnostics"""
+    _pyvc_symbolic = True
+    _pyvc_immutable = True
+
+    def __init__(self, rope):
+        self.rope = rope
+
+    def __format__(self, spec):
+        return core._sym_format(self, spec)
+
+    def __str__(self):
+        return core._sym_format(self, "")
+
+
+def m_strmod(fmt, arg):
+    """fmt % arg"""
+    if isinstance(fmt, str) and not isinstance(arg, tuple) and isinstance(arg, (SInt, SBV)):
+        m = _re.fullmatch(r"%(?:0(\d+))?x", fmt)
+        if m:
+            return HexText(toint(arg), int(m.group(1) or 0))
+        if core.FORMAT_OK[0]:
+            return "<sym>"
+        raise Undecided("text formatting %r of a symbolic value" % fmt)
+    if is_sym(arg) or (isinstance(arg, tuple) and any(is_sym(x) for x in arg)):
+        if core.FORMAT_OK[0]:
+            return "<sym>"
+        raise Undecided("text formatting of a symbolic value")
+    return fmt % arg
 
 
 # ---------------------------------------------------------------------------------------
